@@ -180,8 +180,14 @@ def handle (j : Json) : Except String Json := do
     let fieldCols ← strList j "field_cols"
     let detailCols ← strList j "detail_cols"
     let lossCols ← strList j "loss_detail_cols"
+    -- "fc" / "dc" present (possibly null): the lists as the CALLER gave them, the reader infers the other
+    let infer := (j.getObjVal? "fc").toOption.isSome || (j.getObjVal? "dc").toOption.isSome
+    let fc ← optStrList j "fc"
+    let dc ← optStrList j "dc"
     let read (tb : Table) : Except Err (List Cell) :=
-      if long then fromLongRows tb lossCols else fromWideRows tb fieldCols detailCols lossCols
+      if long then fromLongRows tb lossCols
+      else if infer then fromWideRowsInfer tb fc dc lossCols
+      else fromWideRows tb fieldCols detailCols lossCols
     let mt := if long then toLongRows t else toWideRows t
     let back := mt.bind read
     let implBack ← match optField j "impl_table" with
